@@ -1,3 +1,1273 @@
 package main
 
-func buildMiscFamilies(thorough bool) {}
+// Everything that is not FETCH: LIST / LIST-STATUS, STATUS, SELECT, SEARCH / ESEARCH, APPENDUID,
+// COPYUID, MOVE, NAMESPACE, CAPABILITY, EXPUNGE, unilateral updates (poll and IDLE), STORE.
+
+import (
+	"errors"
+	"fmt"
+	"sort"
+	"strings"
+	"time"
+
+	imap "github.com/emersion/go-imap/v2"
+	"github.com/emersion/go-imap/v2/imapclient"
+	"github.com/emersion/go-imap/v2/imapserver"
+	"github.com/emersion/go-imap/v2/verif/srvkit"
+)
+
+// regSeq registers a family whose cases are one command each; a job runs up to batch of them one
+// after the other on the same connection.
+func regSeq(name string, n, batch int, cfgs []int, caps []imap.Cap, one func(cn *conn, i int) outcome, desc func(i int) string, rename func(i int, key string, o *outcome) string) {
+	register(&family{
+		name: name, n: n, batch: batch, cfgs: cfgs, caps: caps, desc: desc, renameKey: rename,
+		exec: func(cn *conn, idxs []int) []outcome {
+			outs := make([]outcome, len(idxs))
+			for k, i := range idxs {
+				if !cn.alive {
+					outs[k] = outcome{NotRun: true, Key: name + ":not-run"}
+					continue
+				}
+				cn.w.tick(fmt.Sprintf("%s cfg=%s idx=%d", name, cn.cfg.Name, i))
+				outs[k] = one(cn, i)
+				if k < len(idxs)-1 {
+					cn.after()
+				}
+			}
+			return outs
+		},
+	})
+}
+
+// failed decides, after a command error, whether the connection is still usable.
+func (cn *conn) failed(err error) {
+	if err == nil {
+		return
+	}
+	var ie *imap.Error
+	if !errors.As(err, &ie) || isConnDead(cn.c) {
+		cn.kill()
+	}
+}
+
+func u32p(v uint32) *uint32 { return &v }
+func i64p(v int64) *int64   { return &v }
+
+// M: mailbox-name alphabet (valid UTF-8): S plus the names the UTF-7 / INBOX code cares about.
+var M = append(append([]string{}, S...), "INBOX", "inbox", "InBoX", "inbox/x", "a&b", "&", "a&-b", "&AOk-", "é", "日本/語", "~peter", "#news.x", "a/b c", "%", "*", "a]b")
+
+func statusOptsFromMask(m int) *imap.StatusOptions {
+	return &imap.StatusOptions{
+		NumMessages: m&1 != 0, UIDNext: m&2 != 0, UIDValidity: m&4 != 0, NumUnseen: m&8 != 0,
+		NumDeleted: m&16 != 0, Size: m&32 != 0, AppendLimit: m&64 != 0, DeletedStorage: m&128 != 0,
+	}
+}
+
+// statusValues: variant 0 all zero, 1 all one, 2 all maximal, 3 mixed, 4 mixed with nil AppendLimit
+func statusValues(v int, mailbox string) *imap.StatusData {
+	switch v {
+	case 0:
+		return &imap.StatusData{Mailbox: mailbox, NumMessages: u32p(0), UIDNext: 0, UIDValidity: 0, NumUnseen: u32p(0), NumDeleted: u32p(0), Size: i64p(0), AppendLimit: u32p(0), DeletedStorage: i64p(0)}
+	case 1:
+		return &imap.StatusData{Mailbox: mailbox, NumMessages: u32p(1), UIDNext: 1, UIDValidity: 1, NumUnseen: u32p(1), NumDeleted: u32p(1), Size: i64p(1), AppendLimit: u32p(1), DeletedStorage: i64p(1)}
+	case 2:
+		return &imap.StatusData{Mailbox: mailbox, NumMessages: u32p(4294967295), UIDNext: 4294967295, UIDValidity: 4294967295, NumUnseen: u32p(4294967295), NumDeleted: u32p(4294967295), Size: i64p(9223372036854775807), AppendLimit: u32p(4294967295), DeletedStorage: i64p(9223372036854775807)}
+	case 3:
+		return &imap.StatusData{Mailbox: mailbox, NumMessages: u32p(10), UIDNext: 11, UIDValidity: 12, NumUnseen: u32p(13), NumDeleted: u32p(14), Size: i64p(4294967296), AppendLimit: u32p(16), DeletedStorage: i64p(17)}
+	default:
+		return &imap.StatusData{Mailbox: mailbox, NumMessages: u32p(20), UIDNext: 21, UIDValidity: 22, NumUnseen: u32p(23), NumDeleted: u32p(24), Size: i64p(25), AppendLimit: nil, DeletedStorage: i64p(27)}
+	}
+}
+
+func describeList(d *imap.ListData, so *imap.StatusOptions) string {
+	var f flat
+	so2 := so
+	if d.Status != nil && so2 == nil {
+		so2 = statusOptsFromMask(255)
+	}
+	printList(&f, "", d, so2, false)
+	return "{" + kvString(f.l) + "}"
+}
+
+var listAttrs = []imap.MailboxAttr{imap.MailboxAttrNoSelect, imap.MailboxAttrHasChildren, imap.MailboxAttrSubscribed, imap.MailboxAttrSent, "\\X-Custom", "\\NONEXISTENT"}
+
+var delims = []rune{'/', '.', '\\', '"', 0, 'é', '日'}
+
+// listCase: the mailboxes one LIST command returns, and the STATUS items it asks for.
+type listCase struct {
+	items  []*imap.ListData
+	status *imap.StatusOptions
+	label  string
+}
+
+func (lc *listCase) describe() string {
+	var sb strings.Builder
+	sb.WriteString("LIST")
+	if lc.status != nil {
+		var f flat
+		d := statusValues(2, "")
+		printStatus(&f, "", d, lc.status)
+		var names []string
+		for _, e := range f.l[1:] {
+			names = append(names, strings.TrimPrefix(e.P, "."))
+		}
+		sb.WriteString(" RETURN (STATUS (" + strings.Join(names, " ") + "))")
+	}
+	if lc.label != "" {
+		sb.WriteString(" [" + lc.label + "]")
+	}
+	sb.WriteString(" backend writes:")
+	for _, d := range lc.items {
+		sb.WriteString(" " + describeList(d, lc.status))
+	}
+	return sb.String()
+}
+
+func execList(cn *conn, cases []*listCase) []outcome {
+	outs := make([]outcome, len(cases))
+	var all []*imap.ListData
+	for _, lc := range cases {
+		all = append(all, lc.items...)
+	}
+	so := cases[0].status
+	var writeErr error
+	cn.stub.OnList = func(w *imapserver.ListWriter, ref string, patterns []string, o *imap.ListOptions) error {
+		for k, d := range all {
+			if err := w.WriteList(d); err != nil {
+				writeErr = fmt.Errorf("item %d: ListWriter.WriteList: %v", k, err)
+				return writeErr
+			}
+		}
+		return nil
+	}
+	var opts *imap.ListOptions
+	if so != nil {
+		opts = &imap.ListOptions{ReturnStatus: so}
+	}
+	got, cmdErr := cn.c.List("", "*", opts).Collect()
+	cn.stub.OnList = nil
+	pos := 0
+	for i, lc := range cases {
+		var exp, dl flat
+		for k, d := range lc.items {
+			printList(&exp, fmt.Sprintf("mailbox[%d]", k), d, so, true)
+			if pos+k < len(got) {
+				printList(&dl, fmt.Sprintf("mailbox[%d]", k), got[pos+k], so, false)
+			}
+		}
+		pos += len(lc.items)
+		extra := map[string]interface{}{}
+		if writeErr != nil {
+			extra["writer_error"] = writeErr.Error()
+		}
+		var e error
+		if cmdErr != nil && pos > len(got) {
+			e = cmdErr
+		}
+		if cmdErr != nil && i == len(cases)-1 {
+			e = cmdErr
+		}
+		outs[i] = compare("list", exp.l, dl.l, e, extra)
+	}
+	if cmdErr == nil && len(got) > pos {
+		var f flat
+		printList(&f, "extra", got[pos], so, false)
+		outs[len(outs)-1] = outcome{Key: "list:extra-mailbox", Detail: map[string]interface{}{"extra": kvString(f.l)}}
+	}
+	cn.failed(cmdErr)
+	return outs
+}
+
+func regList(name string, n, batch int, get func(i int) *listCase) {
+	register(&family{
+		name: name, n: n, batch: batch,
+		group: func(i int) string {
+			lc := get(i)
+			if lc.status == nil {
+				return "plain"
+			}
+			return fmt.Sprintf("%+v", *lc.status)
+		},
+		exec: func(cn *conn, idxs []int) []outcome {
+			cases := make([]*listCase, len(idxs))
+			for k, i := range idxs {
+				cases[k] = get(i)
+			}
+			return execList(cn, cases)
+		},
+		desc: func(i int) string { return get(i).describe() },
+	})
+}
+
+func buildMiscFamilies(thorough bool) {
+	// ---------------- LIST ----------------
+	{
+		type spec struct{ attrs, delim, child, old int }
+		var specs []spec
+		for a := 0; a < 64; a++ {
+			for d := range delims {
+				for c := 0; c < 3; c++ {
+					for o := 0; o < 3; o++ {
+						specs = append(specs, spec{a, d, c, o})
+					}
+				}
+			}
+		}
+		get := func(i int) *listCase {
+			sp := specs[i]
+			d := &imap.ListData{Delim: delims[sp.delim], Mailbox: fmt.Sprintf("box%d", i%7)}
+			for b := 0; b < 6; b++ {
+				if sp.attrs&(1<<b) != 0 {
+					d.Attrs = append(d.Attrs, listAttrs[b])
+				}
+			}
+			if sp.attrs == 0 && i%2 == 1 {
+				d.Attrs = []imap.MailboxAttr{}
+			}
+			switch sp.child {
+			case 1:
+				d.ChildInfo = &imap.ListDataChildInfo{}
+			case 2:
+				d.ChildInfo = &imap.ListDataChildInfo{Subscribed: true}
+			}
+			switch sp.old {
+			case 1:
+				d.OldName = "old/näme"
+			case 2:
+				d.OldName = "inbox"
+			}
+			return &listCase{items: []*imap.ListData{d}, label: "attribute subset x delimiter x CHILDINFO x OLDNAME"}
+		}
+		regList("list-items", len(specs), 32, get)
+
+		// names: Mailbox alone, OldName alone, then every pair
+		type nspec struct{ m, o int }
+		var ns []nspec
+		for m := range M {
+			ns = append(ns, nspec{m, -1})
+		}
+		for o := range M {
+			if M[o] != "" {
+				ns = append(ns, nspec{-1, o})
+			}
+		}
+		for m := range M {
+			for o := range M {
+				if M[o] != "" {
+					ns = append(ns, nspec{m, o})
+				}
+			}
+		}
+		getN := func(i int) *listCase {
+			sp := ns[i]
+			d := &imap.ListData{Delim: '/', Mailbox: "box", Attrs: []imap.MailboxAttr{imap.MailboxAttrHasNoChildren}}
+			if sp.m >= 0 {
+				d.Mailbox = M[sp.m]
+			}
+			if sp.o >= 0 {
+				d.OldName = M[sp.o]
+			}
+			return &listCase{items: []*imap.ListData{d}, label: "mailbox names"}
+		}
+		regList("list-names", len(ns), 32, getN)
+
+		// LIST-STATUS pairing: 1..3 mailboxes, status for every subset of them
+		type sspec struct{ k, mask, opt, val, names int }
+		optMasks := []int{0, 1, 1 | 2 | 4 | 8, 255}
+		var ss []sspec
+		for k := 1; k <= 3; k++ {
+			for mask := 0; mask < 1<<k; mask++ {
+				for opt := range optMasks {
+					for val := 2; val < 5; val++ {
+						for names := 0; names < 3; names++ {
+							ss = append(ss, sspec{k, mask, opt, val, names})
+						}
+					}
+				}
+			}
+		}
+		nameSets := [][]string{{"a", "b", "c"}, {"inbox", "INBOX/x", "é b"}, {"x", "x", "InBoX"}}
+		getS := func(i int) *listCase {
+			sp := ss[i]
+			lc := &listCase{status: statusOptsFromMask(optMasks[sp.opt]), label: fmt.Sprintf("LIST-STATUS: %d mailboxes, status for subset %03b", sp.k, sp.mask)}
+			for m := 0; m < sp.k; m++ {
+				d := &imap.ListData{Delim: '/', Mailbox: nameSets[sp.names][m], Attrs: []imap.MailboxAttr{imap.MailboxAttrHasNoChildren}}
+				if sp.mask&(1<<m) != 0 {
+					d.Status = statusValues((sp.val+m)%5, d.Mailbox)
+				}
+				lc.items = append(lc.items, d)
+			}
+			return lc
+		}
+		regList("list-status", len(ss), 1, getS)
+		// status supplied although the client did not ask for it: it must not travel
+		regList("list-status-unrequested", 1, 1, func(i int) *listCase {
+			return &listCase{label: "status supplied but not requested", items: []*imap.ListData{{Delim: '/', Mailbox: "a", Status: statusValues(3, "a")}}}
+		})
+	}
+
+	// ---------------- STATUS ----------------
+	{
+		type spec struct {
+			name       string
+			mask, val  int
+			onlyAsked  bool
+		}
+		var specs []spec
+		for mask := 0; mask < 256; mask++ {
+			for val := 0; val < 5; val++ {
+				specs = append(specs, spec{"box", mask, val, (mask+val)%2 == 0})
+			}
+		}
+		for _, nm := range M {
+			if nm == "" || len(nm) > 4096 {
+				// "" is not a mailbox one can ask about; a name the client has to send as a
+				// literal of more than 4096 bytes is refused by the server (C04's business)
+				continue
+			}
+			for _, mask := range []int{1, 255} {
+				specs = append(specs, spec{nm, mask, 3, false})
+			}
+		}
+		one := func(cn *conn, i int) outcome {
+			sp := specs[i]
+			o := statusOptsFromMask(sp.mask)
+			var supplied *imap.StatusData
+			cn.stub.OnStatus = func(mailbox string, opts *imap.StatusOptions) (*imap.StatusData, error) {
+				d := statusValues(sp.val, mailbox)
+				if sp.onlyAsked { // a backend that fills in only what was asked for
+					if !opts.NumMessages {
+						d.NumMessages = nil
+					}
+					if !opts.NumUnseen {
+						d.NumUnseen = nil
+					}
+					if !opts.NumDeleted {
+						d.NumDeleted = nil
+					}
+					if !opts.Size {
+						d.Size = nil
+					}
+					if !opts.DeletedStorage {
+						d.DeletedStorage = nil
+					}
+				}
+				supplied = d
+				return d, nil
+			}
+			got, err := cn.c.Status(sp.name, o).Wait()
+			cn.stub.OnStatus = nil
+			var exp, dl flat
+			if supplied != nil {
+				printStatus(&exp, "status", supplied, o)
+			} else {
+				exp.s("status", "backend was not called")
+			}
+			// the name the client asked for is the name the data belongs to
+			exp.s("asked", q(foldInbox(sp.name)))
+			if err == nil {
+				printStatus(&dl, "status", got, o)
+				dl.s("asked", q(foldInbox(got.Mailbox)))
+				printStatusUnrequested(&dl, "status", got, o)
+			}
+			cn.failed(err)
+			return compare("status", exp.l, dl.l, err, nil)
+		}
+		desc := func(i int) string {
+			sp := specs[i]
+			var f flat
+			printStatus(&f, "", statusValues(sp.val, sp.name), statusOptsFromMask(sp.mask))
+			return fmt.Sprintf("STATUS %s items-mask=%08b backend-fills-only-requested=%v backend returns {%s}", q(sp.name), sp.mask, sp.onlyAsked, kvString(f.l))
+		}
+		regSeq("status", len(specs), 16, nil, nil, one, desc, nil)
+	}
+
+	// ---------------- SELECT ----------------
+	{
+		flagLists := [][]imap.Flag{nil, {}, {imap.FlagSeen}, {imap.FlagSeen, imap.FlagAnswered, imap.FlagFlagged, imap.FlagDeleted, imap.FlagDraft, "$Forwarded", "kw"}, {"\\aNSWERED", "NIL"}}
+		permLists := [][]imap.Flag{nil, {imap.FlagWildcard}, {imap.FlagSeen, imap.FlagDeleted, imap.FlagWildcard}, {"kw", imap.FlagSeen}}
+		nums := []uint32{0, 1, 4294967295}
+		type spec struct {
+			name                     string
+			fl, pf, nm, un, uv, list int
+			ro                       bool
+		}
+		var specs []spec
+		for fl := range flagLists {
+			for pf := range permLists {
+				for nm := range nums {
+					for un := range nums {
+						for uv := range nums {
+							specs = append(specs, spec{"box", fl, pf, nm, un, uv, 0, (fl+pf+nm)%2 == 0})
+						}
+					}
+				}
+			}
+		}
+		// LIST-in-SELECT (RFC 9051 6.3.2): variants 1..5 x mailbox names
+		for _, nm := range []string{"box", "INBOX", "inbox", "é/x", "a b"} {
+			for l := 1; l <= 5; l++ {
+				for _, ro := range []bool{false, true} {
+					specs = append(specs, spec{nm, 3, 2, 1, 1, 1, l, ro})
+				}
+			}
+		}
+		mkList := func(variant int, name string) *imap.ListData {
+			switch variant {
+			case 0:
+				return nil
+			case 1:
+				return &imap.ListData{Delim: '/', Mailbox: name}
+			case 2:
+				return &imap.ListData{Delim: '.', Mailbox: name, Attrs: []imap.MailboxAttr{imap.MailboxAttrHasChildren, imap.MailboxAttrSubscribed}, ChildInfo: &imap.ListDataChildInfo{Subscribed: true}}
+			case 3: // the server knows the mailbox under a canonical name: OLDNAME is what the client sent
+				return &imap.ListData{Delim: '/', Mailbox: name + "-canonical", OldName: name}
+			case 4:
+				return &imap.ListData{Delim: 0, Mailbox: strings.ToUpper(name), OldName: name}
+			default:
+				return &imap.ListData{Delim: '/', Mailbox: name, OldName: "some/other"}
+			}
+		}
+		one := func(cn *conn, i int) outcome {
+			sp := specs[i]
+			var supplied *imap.SelectData
+			cn.stub.OnSelect = func(mailbox string, o *imap.SelectOptions) (*imap.SelectData, error) {
+				supplied = &imap.SelectData{Flags: flagLists[sp.fl], PermanentFlags: permLists[sp.pf], NumMessages: nums[sp.nm], UIDNext: imap.UID(nums[sp.un]), UIDValidity: nums[sp.uv], List: mkList(sp.list, mailbox)}
+				return supplied, nil
+			}
+			got, err := cn.c.Select(sp.name, &imap.SelectOptions{ReadOnly: sp.ro}).Wait()
+			cn.stub.OnSelect = nil
+			cn.sel = ""
+			if err == nil {
+				cn.sel = sp.name
+			}
+			var exp, dl flat
+			if supplied != nil {
+				printSelect(&exp, "select", supplied, true)
+			}
+			if err == nil {
+				printSelect(&dl, "select", got, false)
+			}
+			cn.failed(err)
+			return compare("select", exp.l, dl.l, err, nil)
+		}
+		desc := func(i int) string {
+			sp := specs[i]
+			var f flat
+			printSelect(&f, "", &imap.SelectData{Flags: flagLists[sp.fl], PermanentFlags: permLists[sp.pf], NumMessages: nums[sp.nm], UIDNext: imap.UID(nums[sp.un]), UIDValidity: nums[sp.uv], List: mkList(sp.list, sp.name)}, true)
+			cmd := "SELECT"
+			if sp.ro {
+				cmd = "EXAMINE"
+			}
+			return fmt.Sprintf("%s %s backend returns {%s}", cmd, q(sp.name), kvString(f.l))
+		}
+		rename := func(i int, key string, o *outcome) string {
+			sp := specs[i]
+			dropped := false
+			if o != nil && o.Detail != nil {
+				dropped = o.Detail["delivered"] == "select.list=nil"
+			}
+			if strings.HasPrefix(key, "select:select.list") && dropped {
+				// the LIST response of RFC 9051 6.3.2 was parsed but not attached to the SELECT
+				switch {
+				case sp.list == 3 || sp.list == 4:
+					return "select-list-canonical-name-dropped"
+				case strings.EqualFold(sp.name, "INBOX") && sp.name != "INBOX":
+					return "select-list-inbox-case-dropped"
+				}
+			}
+			return key
+		}
+		regSeq("select", len(specs), 16, nil, nil, one, desc, rename)
+	}
+
+	// ---------------- SEARCH / ESEARCH ----------------
+	{
+		type spec struct {
+			uid              bool
+			ret              int // bit 0 MIN, 1 MAX, 2 ALL, 3 COUNT
+			set, mmc         int
+			nilAll           bool
+		}
+		sets := [][]rng{nil, {{1, 1}}, {{1, 3}}, {{1, 1}, {3, 3}, {5, 7}}, {{4294967295, 4294967295}}, {{2, 2}, {4294967294, 4294967295}}}
+		mmcs := [][3]uint32{{0, 0, 0}, {1, 1, 1}, {1, 4294967295, 4294967295}, {7, 3, 0}}
+		var specs []spec
+		for _, uid := range []bool{false, true} {
+			for ret := 0; ret < 16; ret++ {
+				for s := range sets {
+					for m := range mmcs {
+						specs = append(specs, spec{uid, ret, s, m, false})
+					}
+				}
+				if ret != 0 && ret&4 == 0 { // ALL neither requested nor implied: a backend may leave All nil
+					specs = append(specs, spec{uid, ret, 0, 1, true})
+				}
+			}
+		}
+		mkData := func(sp spec) *imap.SearchData {
+			d := &imap.SearchData{UID: sp.uid, Min: mmcs[sp.mmc][0], Max: mmcs[sp.mmc][1], Count: mmcs[sp.mmc][2]}
+			if sp.nilAll {
+				return d
+			}
+			if sp.uid {
+				var s imap.UIDSet
+				for _, r := range sets[sp.set] {
+					s.AddRange(imap.UID(r.a), imap.UID(r.b))
+				}
+				d.All = s
+			} else {
+				var s imap.SeqSet
+				for _, r := range sets[sp.set] {
+					s.AddRange(r.a, r.b)
+				}
+				d.All = s
+			}
+			return d
+		}
+		mkOpts := func(sp spec) *imap.SearchOptions {
+			return &imap.SearchOptions{ReturnMin: sp.ret&1 != 0, ReturnMax: sp.ret&2 != 0, ReturnAll: sp.ret&4 != 0, ReturnCount: sp.ret&8 != 0}
+		}
+		one := func(cn *conn, i int) outcome {
+			sp := specs[i]
+			if err := cn.ensureSelected(); err != nil {
+				run.EngineError("benign SELECT failed: %v", err)
+			}
+			data := mkData(sp)
+			var effective imap.SearchOptions
+			called := false
+			cn.stub.OnSearch = func(kind imapserver.NumKind, c *imap.SearchCriteria, o *imap.SearchOptions) (*imap.SearchData, error) {
+				effective = *o // the server adds ALL when nothing was asked for
+				called = true
+				return data, nil
+			}
+			crit := &imap.SearchCriteria{Flag: []imap.Flag{imap.FlagSeen}}
+			var cmd *imapclient.SearchCommand
+			if sp.uid {
+				cmd = cn.c.UIDSearch(crit, mkOpts(sp))
+			} else {
+				cmd = cn.c.Search(crit, mkOpts(sp))
+			}
+			got, err := cmd.Wait()
+			cn.stub.OnSearch = nil
+			var exp, dl flat
+			if called {
+				esearch := cn.cfg.Enable || sp.ret != 0
+				printSearch(&exp, "search", wireSearch(data, &effective, esearch, sp.uid))
+			}
+			if err == nil {
+				printSearch(&dl, "search", got)
+			}
+			cn.failed(err)
+			return compare("search", exp.l, dl.l, err, nil)
+		}
+		desc := func(i int) string {
+			sp := specs[i]
+			var f flat
+			d := mkData(sp)
+			printSearch(&f, "", d)
+			cmd := "SEARCH"
+			if sp.uid {
+				cmd = "UID SEARCH"
+			}
+			var r []string
+			for b, n := range []string{"MIN", "MAX", "ALL", "COUNT"} {
+				if sp.ret&(1<<b) != 0 {
+					r = append(r, n)
+				}
+			}
+			return fmt.Sprintf("%s RETURN (%s) backend returns {%s; all-is-nil-interface=%v}", cmd, strings.Join(r, " "), kvString(f.l), d.All == nil)
+		}
+		regSeq("search", len(specs), 16, nil, nil, one, desc, nil)
+	}
+
+	// ---------------- APPENDUID ----------------
+	{
+		type spec struct {
+			data *imap.AppendData
+			size int
+		}
+		var specs []spec
+		for _, size := range []int{0, 5, 5000} {
+			specs = append(specs, spec{nil, size})
+			for _, uv := range []uint32{0, 1, 4294967295} {
+				for _, uid := range []imap.UID{1, 2147483648, 4294967295} {
+					specs = append(specs, spec{&imap.AppendData{UIDValidity: uv, UID: uid}, size})
+				}
+			}
+		}
+		one := func(cn *conn, i int) outcome {
+			sp := specs[i]
+			cn.stub.OnAppend = func(mailbox string, r imap.LiteralReader, o *imap.AppendOptions) (*imap.AppendData, error) {
+				buf := make([]byte, 4096)
+				for {
+					if _, err := r.Read(buf); err != nil {
+						break
+					}
+				}
+				return sp.data, nil
+			}
+			cmd := cn.c.Append("box", int64(sp.size), nil)
+			cmd.Write([]byte(strings.Repeat("x", sp.size)))
+			cmd.Close()
+			got, err := cmd.Wait()
+			cn.stub.OnAppend = nil
+			var exp, dl flat
+			d := sp.data
+			if d == nil {
+				d = &imap.AppendData{}
+			}
+			exp.n("append.uidvalidity", d.UIDValidity)
+			exp.n("append.uid", d.UID)
+			if err == nil {
+				dl.n("append.uidvalidity", got.UIDValidity)
+				dl.n("append.uid", got.UID)
+			}
+			cn.failed(err)
+			return compare("append", exp.l, dl.l, err, nil)
+		}
+		desc := func(i int) string {
+			sp := specs[i]
+			if sp.data == nil {
+				return fmt.Sprintf("APPEND of %d bytes, backend returns nil AppendData", sp.size)
+			}
+			return fmt.Sprintf("APPEND of %d bytes, backend returns %+v", sp.size, *sp.data)
+		}
+		regSeq("append", len(specs), 8, nil, nil, one, desc, nil)
+	}
+
+	// ---------------- COPYUID / MOVE ----------------
+	type uidPair struct{ src, dst imap.UIDSet }
+	mkSet := func(l ...rng) imap.UIDSet {
+		var s imap.UIDSet
+		for _, r := range l {
+			s = append(s, imap.UIDRange{Start: imap.UID(r.a), Stop: imap.UID(r.b)})
+		}
+		return s
+	}
+	uidPairs := []uidPair{
+		{mkSet(rng{5, 5}), mkSet(rng{9, 9})},
+		{mkSet(rng{1, 3}), mkSet(rng{10, 12})},
+		{mkSet(rng{1, 1}, rng{3, 3}, rng{5, 7}), mkSet(rng{20, 20}, rng{22, 22}, rng{30, 32})},
+		{mkSet(rng{4294967295, 4294967295}), mkSet(rng{4294967294, 4294967295})},
+		{mkSet(rng{9, 9}, rng{2, 4}), mkSet(rng{7, 5}, rng{1, 1})}, // scattered, unsorted, a reversed range
+	}
+	var copyDatas []*imap.CopyData
+	copyDatas = append(copyDatas, nil)
+	for _, uv := range []uint32{0, 1, 4294967295} {
+		for _, p := range uidPairs {
+			copyDatas = append(copyDatas, &imap.CopyData{UIDValidity: uv, SourceUIDs: p.src, DestUIDs: p.dst})
+		}
+	}
+	printCopy := func(f *flat, p string, uv uint32, src, dst imap.NumSet) {
+		f.n(p+".uidvalidity", uv)
+		f.s(p+".sourceuids", setString(src))
+		f.s(p+".destuids", setString(dst))
+	}
+	descCopy := func(d *imap.CopyData) string {
+		if d == nil {
+			return "nil CopyData"
+		}
+		return fmt.Sprintf("CopyData{UIDValidity:%d SourceUIDs:%s DestUIDs:%s}", d.UIDValidity, d.SourceUIDs.String(), d.DestUIDs.String())
+	}
+	{
+		n := 2 * len(copyDatas)
+		one := func(cn *conn, i int) outcome {
+			d := copyDatas[i%len(copyDatas)]
+			uid := i >= len(copyDatas)
+			if err := cn.ensureSelected(); err != nil {
+				run.EngineError("benign SELECT failed: %v", err)
+			}
+			cn.stub.OnCopy = func(numSet imap.NumSet, dest string) (*imap.CopyData, error) { return d, nil }
+			var set imap.NumSet = imap.SeqSetNum(1, 2)
+			if uid {
+				set = imap.UIDSetNum(1, 2)
+			}
+			got, err := cn.c.Copy(set, "dest").Wait()
+			cn.stub.OnCopy = nil
+			var exp, dl flat
+			if d == nil {
+				printCopy(&exp, "copy", 0, nil, nil)
+			} else {
+				printCopy(&exp, "copy", d.UIDValidity, d.SourceUIDs, d.DestUIDs)
+			}
+			if err == nil {
+				printCopy(&dl, "copy", got.UIDValidity, got.SourceUIDs, got.DestUIDs)
+			}
+			cn.failed(err)
+			return compare("copy", exp.l, dl.l, err, nil)
+		}
+		desc := func(i int) string {
+			c := "COPY"
+			if i >= len(copyDatas) {
+				c = "UID COPY"
+			}
+			return c + " backend returns " + descCopy(copyDatas[i%len(copyDatas)])
+		}
+		regSeq("copy", n, 8, nil, nil, one, desc, nil)
+	}
+	{
+		// MOVE: the order of WriteCopyData and WriteExpunge calls is the backend's choice
+		expLists := [][]uint32{nil, {1}, {3, 2, 1}, {1, 1, 1}, {4294967295}}
+		var long []uint32
+		for k := 0; k < 200; k++ {
+			long = append(long, uint32(200-k))
+		}
+		expLists = append(expLists, long)
+		type spec struct {
+			data, exp int
+			copyFirst bool
+			uid       bool
+		}
+		var specs []spec
+		for d := range copyDatas {
+			for e := range expLists {
+				for _, cf := range []bool{true, false} {
+					specs = append(specs, spec{d, e, cf, (d+e)%2 == 0})
+				}
+			}
+		}
+		one := func(cn *conn, i int) outcome {
+			sp := specs[i]
+			d := copyDatas[sp.data]
+			if err := cn.ensureSelected(); err != nil {
+				run.EngineError("benign SELECT failed: %v", err)
+			}
+			var writeErr error
+			cn.stub.OnMove = func(w *imapserver.MoveWriter, numSet imap.NumSet, dest string) error {
+				wc := func() {
+					if d != nil && writeErr == nil {
+						writeErr = w.WriteCopyData(d)
+					}
+				}
+				if sp.copyFirst {
+					wc()
+				}
+				for _, n := range expLists[sp.exp] {
+					if writeErr == nil {
+						writeErr = w.WriteExpunge(n)
+					}
+				}
+				if !sp.copyFirst {
+					wc()
+				}
+				return writeErr
+			}
+			cn.stub.OnCopy = func(numSet imap.NumSet, dest string) (*imap.CopyData, error) { return d, nil } // fallback path
+			cn.stub.OnExpunge = func(w *imapserver.ExpungeWriter, uids *imap.UIDSet) error {
+				for _, n := range expLists[sp.exp] {
+					w.WriteExpunge(n)
+				}
+				return nil
+			}
+			var set imap.NumSet = imap.SeqSetNum(1, 2)
+			if sp.uid {
+				set = imap.UIDSetNum(1, 2)
+			}
+			cn.uni.take()
+			got, err := cn.c.Move(set, "dest").Wait()
+			cn.stub.OnMove, cn.stub.OnCopy, cn.stub.OnExpunge = nil, nil, nil
+			var exp, dl flat
+			if d == nil {
+				printCopy(&exp, "move", 0, nil, nil)
+			} else {
+				printCopy(&exp, "move", d.UIDValidity, d.SourceUIDs, d.DestUIDs)
+			}
+			moveCap := cn.caps.Has(imap.CapMove)
+			if moveCap {
+				for k, n := range expLists[sp.exp] {
+					exp.s(fmt.Sprintf("move.expunge[%d]", k), fmt.Sprintf("expunge %d", n))
+				}
+			}
+			if err == nil {
+				printCopy(&dl, "move", got.UIDValidity, got.SourceUIDs, got.DestUIDs)
+				if moveCap {
+					for k, e := range cn.uni.take() {
+						dl.s(fmt.Sprintf("move.expunge[%d]", k), e)
+					}
+				}
+			}
+			cn.uni.take()
+			cn.failed(err)
+			extra := map[string]interface{}{"client_used_MOVE": moveCap}
+			if writeErr != nil {
+				extra["writer_error"] = writeErr.Error()
+			}
+			return compare("move", exp.l, dl.l, err, extra)
+		}
+		desc := func(i int) string {
+			sp := specs[i]
+			c := "MOVE"
+			if sp.uid {
+				c = "UID MOVE"
+			}
+			el := fmt.Sprint(expLists[sp.exp])
+			if len(el) > 60 {
+				el = el[:60] + "..."
+			}
+			return fmt.Sprintf("%s backend writes %s and expunges %s (copy data first: %v)", c, descCopy(copyDatas[sp.data]), el, sp.copyFirst)
+		}
+		rename := func(i int, key string, o *outcome) string {
+			if o != nil && o.Detail != nil {
+				if used, ok := o.Detail["client_used_MOVE"].(bool); ok && !used && strings.HasPrefix(key, "move:move.") {
+					return "move-fallback-copyuid-dropped"
+				}
+			}
+			return key
+		}
+		regSeq("move", len(specs), 8, nil, nil, one, desc, rename)
+		// rev1 server that advertises the MOVE extension
+		regSeq("move-rev1-ext", len(specs), 8, []int{0}, []imap.Cap{imap.CapMove}, one, desc, rename)
+	}
+
+	// ---------------- NAMESPACE ----------------
+	{
+		mkNS := func(variant, base int) []imap.NamespaceDescriptor {
+			switch variant {
+			case 0:
+				return nil
+			case 1:
+				return []imap.NamespaceDescriptor{}
+			case 2:
+				return []imap.NamespaceDescriptor{{Prefix: fmt.Sprintf("p%d/", base), Delim: '/'}}
+			default:
+				return []imap.NamespaceDescriptor{{Prefix: "", Delim: delims[base%len(delims)]}, {Prefix: fmt.Sprintf("#q%d.", base), Delim: '.'}}
+			}
+		}
+		var datas []*imap.NamespaceData
+		var labels []string
+		for a := 0; a < 4; a++ {
+			for b := 0; b < 4; b++ {
+				for c := 0; c < 4; c++ {
+					datas = append(datas, &imap.NamespaceData{Personal: mkNS(a, 1), Other: mkNS(b, 2), Shared: mkNS(c, 3)})
+					labels = append(labels, "presence")
+				}
+			}
+		}
+		for _, d := range delims {
+			datas = append(datas, &imap.NamespaceData{Personal: []imap.NamespaceDescriptor{{Prefix: "x", Delim: d}}})
+			labels = append(labels, "delimiter")
+		}
+		for _, s1 := range S {
+			datas = append(datas, &imap.NamespaceData{Shared: []imap.NamespaceDescriptor{{Prefix: s1, Delim: '/'}}})
+			labels = append(labels, "prefix from S")
+		}
+		for _, s1 := range S {
+			for _, s2 := range S {
+				datas = append(datas, &imap.NamespaceData{Personal: []imap.NamespaceDescriptor{{Prefix: s1, Delim: '/'}}, Other: []imap.NamespaceDescriptor{{Prefix: "o", Delim: '.'}, {Prefix: s2}}})
+				labels = append(labels, "prefix pair from S")
+			}
+		}
+		pr := func(f *flat, d *imap.NamespaceData) {
+			printNamespaces(f, "namespace.personal", d.Personal)
+			printNamespaces(f, "namespace.other", d.Other)
+			printNamespaces(f, "namespace.shared", d.Shared)
+		}
+		one := func(cn *conn, i int) outcome {
+			d := datas[i]
+			cn.stub.OnNS = func() (*imap.NamespaceData, error) { return d, nil }
+			got, err := cn.c.Namespace().Wait()
+			cn.stub.OnNS = nil
+			var exp, dl flat
+			pr(&exp, d)
+			if err == nil {
+				pr(&dl, got)
+			}
+			cn.failed(err)
+			return compare("namespace", exp.l, dl.l, err, nil)
+		}
+		desc := func(i int) string {
+			var f flat
+			pr(&f, datas[i])
+			return fmt.Sprintf("NAMESPACE [%s] backend returns {%s}", labels[i], kvString(f.l))
+		}
+		regSeq("namespace", len(datas), 16, nil, nil, one, desc, nil)
+	}
+
+	// ---------------- EXPUNGE ----------------
+	{
+		lists := [][]uint32{nil, {1}, {3, 2, 1}, {1, 1, 1}, {4294967295}, {2, 4294967295, 1}}
+		for _, n := range []int{127, 128, 129, 300} {
+			var l []uint32
+			for k := 0; k < n; k++ {
+				l = append(l, uint32(n-k))
+			}
+			lists = append(lists, l)
+		}
+		one := func(cn *conn, i int) outcome {
+			l := lists[i%len(lists)]
+			uid := i >= len(lists)
+			if err := cn.ensureSelected(); err != nil {
+				run.EngineError("benign SELECT failed: %v", err)
+			}
+			var writeErr error
+			cn.stub.OnExpunge = func(w *imapserver.ExpungeWriter, uids *imap.UIDSet) error {
+				for _, n := range l {
+					if err := w.WriteExpunge(n); err != nil {
+						writeErr = err
+						return err
+					}
+				}
+				return nil
+			}
+			var cmd *imapclient.ExpungeCommand
+			if uid {
+				cmd = cn.c.UIDExpunge(imap.UIDSetNum(1, 2, 3))
+			} else {
+				cmd = cn.c.Expunge()
+			}
+			got, err := cmd.Collect()
+			cn.stub.OnExpunge = nil
+			var exp, dl flat
+			exp.n("expunge.len", len(l))
+			for k, n := range l {
+				exp.n(fmt.Sprintf("expunge[%d]", k), n)
+			}
+			if err == nil {
+				dl.n("expunge.len", len(got))
+				for k, n := range got {
+					dl.n(fmt.Sprintf("expunge[%d]", k), n)
+				}
+			}
+			if ev := cn.uni.take(); len(ev) > 0 {
+				dl.s("expunge.unilateral-leak", strings.Join(ev, ","))
+			}
+			cn.failed(err)
+			extra := map[string]interface{}{}
+			if writeErr != nil {
+				extra["writer_error"] = writeErr.Error()
+			}
+			return compare("expunge", exp.l, dl.l, err, extra)
+		}
+		desc := func(i int) string {
+			c := "EXPUNGE"
+			if i >= len(lists) {
+				c = "UID EXPUNGE"
+			}
+			el := fmt.Sprint(lists[i%len(lists)])
+			if len(el) > 80 {
+				el = el[:80] + fmt.Sprintf("... (%d numbers)", len(lists[i%len(lists)]))
+			}
+			return c + " backend writes " + el
+		}
+		regSeq("expunge", 2*len(lists), 4, nil, nil, one, desc, nil)
+	}
+
+	// ---------------- unilateral updates: after a command (poll) and during IDLE ----------------
+	{
+		type upd struct {
+			kind  int // 0 EXISTS, 1 EXPUNGE, 2 FLAGS, 3 FETCH flags
+			n     uint32
+			uid   imap.UID
+			flags []imap.Flag
+		}
+		alphabet := []upd{
+			{0, 0, 0, nil}, {0, 4294967295, 0, nil},
+			{1, 1, 0, nil}, {1, 7, 0, nil},
+			{2, 0, 0, nil}, {2, 0, 0, []imap.Flag{imap.FlagSeen, "kw", "\\dRAFT"}},
+			{3, 2, 0, []imap.Flag{imap.FlagSeen}}, {3, 3, 9, []imap.Flag{}}, {3, 4294967295, 4294967295, []imap.Flag{"$Junk", "kw"}},
+		}
+		maxLen := 2
+		if thorough {
+			maxLen = 3
+		}
+		var seqs [][]int
+		var rec func(cur []int)
+		rec = func(cur []int) {
+			if len(cur) > 0 {
+				seqs = append(seqs, append([]int{}, cur...))
+			}
+			if len(cur) == maxLen {
+				return
+			}
+			for k := range alphabet {
+				rec(append(cur, k))
+			}
+		}
+		rec(nil)
+		descU := func(u upd) string {
+			switch u.kind {
+			case 0:
+				return fmt.Sprintf("WriteNumMessages(%d)", u.n)
+			case 1:
+				return fmt.Sprintf("WriteExpunge(%d)", u.n)
+			case 2:
+				return fmt.Sprintf("WriteMailboxFlags(%v)", u.flags)
+			default:
+				return fmt.Sprintf("WriteMessageFlags(seq=%d, uid=%d, %v)", u.n, u.uid, u.flags)
+			}
+		}
+		one := func(cn *conn, i int) outcome {
+			idle := i >= len(seqs)
+			sq := seqs[i%len(seqs)]
+			if err := cn.ensureSelected(); err != nil {
+				run.EngineError("benign SELECT failed: %v", err)
+			}
+			var writeErr error
+			write := func(w *imapserver.UpdateWriter) {
+				for _, k := range sq {
+					u := alphabet[k]
+					var err error
+					switch u.kind {
+					case 0:
+						err = w.WriteNumMessages(u.n)
+					case 1:
+						err = w.WriteExpunge(u.n)
+					case 2:
+						err = w.WriteMailboxFlags(u.flags)
+					default:
+						err = w.WriteMessageFlags(u.n, u.uid, u.flags)
+					}
+					if err != nil && writeErr == nil {
+						writeErr = err
+					}
+				}
+			}
+			cn.uni.take()
+			var err error
+			if idle {
+				cn.stub.OnIdle = func(w *imapserver.UpdateWriter, stop <-chan struct{}) error {
+					write(w)
+					<-stop
+					return nil
+				}
+				var ic *imapclient.IdleCommand
+				ic, err = cn.c.Idle()
+				if err == nil {
+					err = ic.Close()
+					if err == nil {
+						err = ic.Wait()
+					}
+				}
+				cn.stub.OnIdle = nil
+			} else {
+				cn.stub.OnPoll = func(w *imapserver.UpdateWriter, allowExpunge bool) error {
+					write(w)
+					return nil
+				}
+				err = cn.c.Noop().Wait()
+				cn.stub.OnPoll = nil
+			}
+			// expected: synchronous events in order; FETCH events (handed to a goroutine by the
+			// client) as a sorted multiset
+			var exp, dl flat
+			var expFetch []string
+			k := 0
+			for _, a := range sq {
+				u := alphabet[a]
+				switch u.kind {
+				case 0:
+					exp.s(fmt.Sprintf("update[%d]", k), fmt.Sprintf("mailbox nummessages=%d", u.n))
+					k++
+				case 1:
+					exp.s(fmt.Sprintf("update[%d]", k), fmt.Sprintf("expunge %d", u.n))
+					k++
+				case 2:
+					var f flat
+					printFlags(&f, "flags", u.flags)
+					if u.flags == nil {
+						// the handler cannot tell "FLAGS ()" from "no FLAGS": nil slice
+						exp.s(fmt.Sprintf("update[%d]", k), "mailbox ")
+					} else {
+						exp.s(fmt.Sprintf("update[%d]", k), "mailbox "+kvString(f.l))
+					}
+					k++
+				default:
+					var its []fitem
+					if u.uid != 0 {
+						its = append(its, fitem{kind: kUID, uid: u.uid})
+					}
+					its = append(its, fitem{kind: kFlags, flags: u.flags})
+					expFetch = append(expFetch, fmt.Sprintf("fetch seq=%d %s", u.n, kvString(expectStream(its, u.n, false))))
+				}
+			}
+			sort.Strings(expFetch)
+			if err == nil {
+				// wait for the handler goroutines the client spawned (engine margin, see Assume)
+				deadline := time.Now().Add(10 * time.Second)
+				for {
+					cn.uni.mu.Lock()
+					n := cn.uni.fetchN
+					cn.uni.mu.Unlock()
+					if n >= len(expFetch) || time.Now().After(deadline) {
+						break
+					}
+					time.Sleep(50 * time.Microsecond)
+				}
+				var gotFetch []string
+				k := 0
+				for _, e := range cn.uni.take() {
+					if strings.HasPrefix(e, "fetch ") {
+						gotFetch = append(gotFetch, e)
+						continue
+					}
+					dl.s(fmt.Sprintf("update[%d]", k), e)
+					k++
+				}
+				sort.Strings(gotFetch)
+				for j, e := range gotFetch {
+					dl.s(fmt.Sprintf("fetchupdate[%d]", j), e)
+				}
+			}
+			for j, e := range expFetch {
+				exp.s(fmt.Sprintf("fetchupdate[%d]", j), e)
+			}
+			cn.failed(err)
+			extra := map[string]interface{}{}
+			if writeErr != nil {
+				extra["writer_error"] = writeErr.Error()
+			}
+			return compare("unilateral", exp.l, dl.l, err, extra)
+		}
+		desc := func(i int) string {
+			var l []string
+			for _, k := range seqs[i%len(seqs)] {
+				l = append(l, descU(alphabet[k]))
+			}
+			via := "Session.Poll after NOOP"
+			if i >= len(seqs) {
+				via = "Session.Idle"
+			}
+			return via + " writes " + strings.Join(l, ", ")
+		}
+		regSeq("unilateral", 2*len(seqs), 8, nil, nil, one, desc, nil)
+	}
+
+	// ---------------- STORE responses (same writer, other command) ----------------
+	{
+		var cases []*fetchCase
+		lists := [][]imap.Flag{nil, {}, {imap.FlagSeen}, {imap.FlagDeleted, "kw", "$Forwarded"}}
+		for _, uid := range []bool{false, true} {
+			for _, l := range lists {
+				cs := &fetchCase{store: true, uidCmd: uid, label: "STORE response"}
+				if uid {
+					cs.items = append(cs.items, fitem{kind: kUID})
+				}
+				cs.items = append(cs.items, fitem{kind: kFlags, flags: l})
+				cases = append(cases, cs)
+			}
+			cases = append(cases, &fetchCase{store: true, uidCmd: uid, label: "STORE response with UID after FLAGS", items: []fitem{{kind: kFlags, flags: lists[3]}, {kind: kUID}}})
+		}
+		regFetch("store", len(cases), 4, func(i int) *fetchCase { return cases[i] }, nil)
+	}
+
+	// ---------------- CAPABILITY ----------------
+	buildCapabilityFamily(thorough)
+}
+
+// ---------- capability lists ----------
+
+var optionalCaps = []imap.Cap{imap.CapNamespace, imap.CapUIDPlus, imap.CapESearch, imap.CapSearchRes, imap.CapListExtended, imap.CapListStatus, imap.CapMove, imap.CapStatusSize, imap.CapBinary, imap.CapCreateSpecialUse, imap.CapLiteralPlus}
+
+// capsOnWire extracts capability lists with the independent tokenizer: kind "greeting" / "tagged"
+// (resp-text code) / "data" (untagged CAPABILITY).
+func capsOnWire(out []byte) (greeting, tagged, data []string, err error) {
+	resps, rest, perr := srvkit.ParseResponses(out)
+	if perr != nil || len(rest) > 0 {
+		return nil, nil, nil, fmt.Errorf("unparseable server output: %v rest=%q", perr, rest)
+	}
+	code := func(text string) []string {
+		i := strings.Index(text, "[CAPABILITY ")
+		if i < 0 {
+			return nil
+		}
+		j := strings.Index(text[i:], "]")
+		if j < 0 {
+			return nil
+		}
+		return strings.Fields(text[i+len("[CAPABILITY ") : i+j])
+	}
+	for k, r := range resps {
+		switch {
+		case k == 0:
+			greeting = code(r.Text)
+		case r.Tag == "*" && r.Kind() == "CAPABILITY":
+			data = r.Words()[1:]
+		case r.Tag != "*" && r.Tag != "+" && strings.Contains(r.Text, "[CAPABILITY "):
+			tagged = code(r.Text)
+		}
+	}
+	return
+}
+
+func capSetString(cs imap.CapSet) string {
+	var l []string
+	for c := range cs {
+		l = append(l, string(c))
+	}
+	sort.Strings(l)
+	return strings.Join(l, " ")
+}
+
+func sortedJoin(l []string) string {
+	l = append([]string{}, l...)
+	sort.Strings(l)
+	return strings.Join(l, " ")
+}
+
+func buildCapabilityFamily(thorough bool) {
+	nOpt := 6
+	if thorough {
+		nOpt = len(optionalCaps)
+	}
+	n := 1 << nOpt
+	one := func(cn *conn, i int) outcome {
+		// own server: the capability list is a property of imapserver.Options
+		caps := capsFor(cn.cfg, nil)
+		var configured []imap.Cap
+		for b := 0; b < nOpt; b++ {
+			if i&(1<<b) != 0 {
+				caps[optionalCaps[b]] = struct{}{}
+				configured = append(configured, optionalCaps[b])
+			}
+		}
+		ss := srvkit.NewStubServer(imapserver.Options{Caps: caps, InsecureAuth: true})
+		defer ss.Close()
+		p := ss.Ln.Dial()
+		c := imapclient.New(p.ClientConn(), nil)
+		defer c.Close()
+		var exp, dl flat
+		fail := func(err error) outcome { return compare("capability", exp.l, dl.l, err, nil) }
+		if err := c.WaitGreeting(); err != nil {
+			return fail(err)
+		}
+		atGreeting := capSetString(c.Caps())
+		if err := c.Login("u", "p").Wait(); err != nil {
+			return fail(err)
+		}
+		afterLogin := capSetString(c.Caps())
+		cmdCaps, err := c.Capability().Wait()
+		if err != nil {
+			return fail(err)
+		}
+		g, t, d, werr := capsOnWire(p.AllOutput())
+		if werr != nil {
+			run.EngineError("capability: %v", werr)
+		}
+		exp.s("capability.greeting", sortedJoin(g))
+		exp.s("capability.login", sortedJoin(t))
+		exp.s("capability.command", sortedJoin(d))
+		exp.s("capability.state-after-command", sortedJoin(d))
+		dl.s("capability.greeting", atGreeting)
+		dl.s("capability.login", afterLogin)
+		dl.s("capability.command", capSetString(cmdCaps))
+		dl.s("capability.state-after-command", capSetString(c.Caps()))
+		// what the application configured must be what the client ends up knowing
+		for _, cc := range configured {
+			if cc == imap.CapCreateSpecialUse || cc == imap.CapLiteralPlus || caps.Has(imap.CapIMAP4rev1) {
+				exp.s("capability.configured."+string(cc), "true")
+				dl.s("capability.configured."+string(cc), fmt.Sprint(cmdCaps.Has(cc)))
+			}
+		}
+		return compare("capability", exp.l, dl.l, nil, nil)
+	}
+	desc := func(i int) string {
+		var l []string
+		for b := 0; b < nOpt; b++ {
+			if i&(1<<b) != 0 {
+				l = append(l, string(optionalCaps[b]))
+			}
+		}
+		return "server Options.Caps = base + {" + strings.Join(l, " ") + "}: greeting, LOGIN completion, CAPABILITY command"
+	}
+	regSeq("capability", n, 8, nil, nil, one, desc, nil)
+}
